@@ -76,8 +76,8 @@ def random_content(rng, endian, max_size=64, cstrings=True, aligned_len=None):
         # a hash of the text instead of the text hand one string's bytes to the other (seeded change C18-10)
         import fxpairs
         x, y = rng.choice(fxpairs.ALL_PAIRS)
-        tail = rng.choice(["", "_cl0n"])
-        pair = [(x + tail).encode(), (y + tail).encode()]
+        tail = rng.choice([b"", b"_cl0n"])
+        pair = [x + tail, y + tail]
         pool = pool[:6] + pair * 4
         label_pool = label_pool[:6] + pair * 2
     for c in cells:
